@@ -44,6 +44,30 @@ def cfg_spin_range(config, tier, seed):
     from ampform.helicity.align._spin import create_spin_range
 
     out = []
+
+    # ground: the encoding treats one call from a fresh state; that the real function keeps no state between
+    # calls is checked on the real code for every two-call history within the bound
+    def want_range(tw, fl):
+        sv = Fraction(tw, 2)
+        w = [float(-sv + k) for k in range(tw + 1)]
+        if fl and len(w) > 1 and 0.0 in w:
+            w.remove(0.0)
+        return w
+
+    stale = []
+    for tw1 in range(11):
+        for fl1 in (True, False):
+            for tw2 in range(11):
+                for fl2 in (True, False):
+                    try:
+                        create_spin_range(tw1 / 2, fl1)
+                        got = create_spin_range(tw2 / 2, fl2)
+                    except Exception as exc:  # noqa: BLE001
+                        got = f"{type(exc).__name__}: {exc}"
+                    if got != want_range(tw2, fl2) and len(stale) < 5:
+                        stale.append(f"create_spin_range({tw1 / 2}, {fl1}) then create_spin_range({tw2 / 2}, {fl2}) -> {got}")
+    out.append(Result(name="every two-call history returns the range of the second call (no state between calls)", kind="ground", status="fail" if stale else "ok",
+                      config=config["name"], replay={"reproduced": bool(stale), "histories": stale}))  # fmt: skip
     twice = z3.Int("twice_s")
     s = z3.ToReal(twice) / 2
     flag = z3.Bool("no_zero_spin")
@@ -53,7 +77,7 @@ def cfg_spin_range(config, tier, seed):
         ex = SymExec(create_spin_range, unwind=12)
         paths = ex.run({"spin_magnitude": s, "no_zero_spin": flag}, pre)
     except Unsupported as exc:
-        return [Result(name="symbolic execution of create_spin_range", kind="identity", status="unknown", config=config["name"], detail=f"Unsupported: {exc}")]
+        return out + [Result(name="symbolic execution of create_spin_range", kind="identity", status="unknown", config=config["name"], detail=f"Unsupported: {exc}")]
     build_s = time.time() - t0
 
     def replay(asg):
@@ -234,7 +258,7 @@ def main():
         assumptions=["float()/Decimal() are exact on half-integers (the stated input domain of create_spin_range)",
                      "amplitude symbols are free complex variables; every helicity, Wigner and zeta angle is free (no kinematics needed: unitarity)",
                      "that the angle DEFINITIONS are the right functions of the event is C19/C07"],  # fmt: skip
-        outside=["axis-angle alignment with a spin-1 parent (undecided within minutes)", "massless final states in obligation 2", "multi-topology reactions (C04)", "spins > 3/2"],
+        outside=["axis-angle alignment with a spin-1 parent (undecided within minutes)", "massless final states in the aligned == unaligned identity (with a spin-0 parent the helicity sets are incomplete, with a spin-1 parent the axis-angle identity is undecided)", "multi-topology reactions (C04)", "spins > 3/2"],
     )
 
 
